@@ -67,6 +67,7 @@ def gen_config(rng, tier, flavor="db"):
         "n_intervals": rng.choice([None, None, 1, 2]),
         "entry": rng.choice(["fit", "direct"]),
         "heated_trace": rng.random() < 0.5,
+        "refit": rng.random() < 0.2,
     }
     cfg["alpha_beta"] = rng.choice([[1.0, 3.0], [1.0, 3.0], [1.0, 1.0], [2.0, 2.0], [0.5, 0.5]])
     if flavor == "db" and rng.random() < 0.06:
@@ -273,6 +274,20 @@ class AssembleSim:
                 )
                 trace = model.fit(self.reads, read_counts=self.counts, initial=initial)
                 self.result = ("fit", trace)
+                if cfg.get("refit"):
+                    # the same model object fitted again to other reads: nothing may survive from the first fit
+                    cfg2 = dict(cfg, data_seed=cfg["data_seed"] + 1)
+                    reads2, counts2 = gen_reads(cfg2)
+                    gaps2 = np.isnan(reads2).all(axis=(0, 2)) if len(reads2) else np.ones(len(cfg["n_alleles"]), bool)
+                    if initial is None and len(set(cfg["n_alleles"])) > 1 and gaps2.any():
+                        return self.result  # observation O1 again: automatic start state would be illegal
+                    self.history_first = list(self.history)
+                    del self.history[:]
+                    self.chain_no = -1
+                    self.reads, self.counts = reads2, counts2
+                    trace2 = model.fit(reads2, read_counts=counts2, initial=initial)
+                    self.result = ("fit", trace2)
+                    self.ctx.counters.inc("refit_same_model")
             else:
                 n_pos = len(cfg["n_alleles"])
                 if initial is None:
@@ -470,7 +485,7 @@ class AssembleSim:
         if inv is None:
             return llk, cache
         if vec is None:
-            self.viol("no_draw", "base_step made no categorical draw")
+            raise HarnessError("base_step made no observable categorical draw: the move cannot be checked")
         y = g.copy()
         exp = x.copy()
         exp[h, j] = choice
@@ -771,7 +786,7 @@ class AssembleSim:
         self._check_carried("chain_swap_step entry (i)", inv, xi, a["llk_i"])
         self._check_carried("chain_swap_step entry (j)", inv, xj, a["llk_j"])
         if self.last_acc is None or u is None:
-            self.viol("no_draw", "chain_swap_step did not evaluate an acceptance / draw a uniform")
+            raise HarnessError("chain_swap_step did not go through the chain_swap_acceptance / np.random.rand seams: the exchange cannot be checked")
         acc = self.last_acc[1]
         swapped = np.array_equal(gi, xj) and np.array_equal(gj, xi)
         stayed = np.array_equal(gi, xi) and np.array_equal(gj, xj)
